@@ -204,12 +204,25 @@ func execHsServer(args []string) string {
 		opt.PermessageDeflate = hsPdOn
 	}
 	nth := 0
+	rejectNext := false
 	opt.Authorize = func(r *http.Request, s gws.SessionStorage) bool {
+		if rejectNext { // the preliminary request below: stores something, then refuses
+			rejectNext = false
+			s.Store("poison", 1)
+			return false
+		}
 		nth++
 		s.Store("k", sess+strings.Repeat("'", nth-1))
 		return auth
 	}
 	up := gws.NewUpgrader(newRecorder(), opt)
+	if auth { // a refused authorisation on the same upgrader first: what it stored must not reach a later connection
+		rejectNext = true
+		if _, _, _, sc0, _, perr0 := hsOneUpgrade(up, raw); perr0 == nil && sc0 != nil {
+			_ = sc0.Close()
+		}
+		rejectNext = false
+	}
 	c, err, req, sc, written, perr := hsOneUpgrade(up, raw)
 	if perr != nil {
 		return "case-inconsistent http-parse-error"
@@ -239,6 +252,8 @@ func execHsServer(args []string) string {
 	if c != nil && c2 != nil {
 		v1, _ := c.Session().Load("k")
 		v2, _ := c2.Session().Load("k")
+		_, poisoned := c.Session().Load("poison")
+		iso = iso && !poisoned && c.Session().Len() == 1 && c2.Session().Len() == 1
 		c.Session().Store("only1", 1)
 		_, leaked := c2.Session().Load("only1")
 		iso = iso && c.Session() != c2.Session() && v1 == sess && v2 == sess+"'" && !leaked
@@ -805,8 +820,15 @@ func execHsClient(args []string) string {
 		n, _ := strconv.Atoi(args[1])
 		seen := map[string]bool{}
 		len16 := true
+		// half of the handshakes re-use ONE option value, as a reconnecting client does: the key must be fresh per
+		// handshake, not per option
+		shared := &gws.ClientOption{RequestHeader: http.Header{"X-Verif": []string{"1"}}}
 		for i := 0; i < n; i++ {
-			c, _, peer, err := hsClientKey(&gws.ClientOption{}, newRecorder())
+			copt := &gws.ClientOption{}
+			if i%2 == 0 {
+				copt = shared
+			}
+			c, _, peer, err := hsClientKey(copt, newRecorder())
 			if err != nil {
 				return "handshake-failed " + strings.Join(strings.Fields(err.Error()), "_")
 			}
